@@ -26,8 +26,11 @@ import (
 	abci "github.com/cometbft/cometbft/abci/types"
 	storetypes "github.com/cosmos/cosmos-sdk/store/types"
 	sdk "github.com/cosmos/cosmos-sdk/types"
+	"github.com/cosmos/cosmos-sdk/x/params"
+	paramproposal "github.com/cosmos/cosmos-sdk/x/params/types/proposal"
 
 	chain "github.com/comdex-official/comdex/app"
+	"github.com/comdex-official/comdex/app/wasm/bindings"
 	"github.com/comdex-official/comdex/x/asset"
 	"github.com/comdex-official/comdex/x/auction"
 	"github.com/comdex-official/comdex/x/auctionsV2"
@@ -36,11 +39,13 @@ import (
 	"github.com/comdex-official/comdex/x/lend"
 	"github.com/comdex-official/comdex/x/liquidation"
 	"github.com/comdex-official/comdex/x/liquidationsV2"
+	lendtypes "github.com/comdex-official/comdex/x/lend/types"
 	liqV1types "github.com/comdex-official/comdex/x/liquidation/types"
 	liqV2types "github.com/comdex-official/comdex/x/liquidationsV2/types"
 	"github.com/comdex-official/comdex/x/liquidity"
 	"github.com/comdex-official/comdex/x/market"
 	"github.com/comdex-official/comdex/x/rewards"
+	vaulttypes "github.com/comdex-official/comdex/x/vault/types"
 )
 
 // ---------- the probe ----------
@@ -119,41 +124,47 @@ func c15Short(fn string) string {
 	return strings.TrimSuffix(fn, ".func1")
 }
 
-// per-item functions of units that the table lists as NOT wrapped: a consumption outside every
-// wrap with one of these on the stack belongs to that unit
+// per-item functions of the units: a consumption OUTSIDE every wrap with one of these on the stack
+// belongs to that unit and is reported as unwrapped (the table must say the same); a panic that
+// leaves a hook is attributed to the unit whose function is on the stack
 var c15UnwrappedMarkers = map[string]string{
-	"Keeper.LiquidateIndividualBorrow":    "v2.borrow",
-	"Keeper.CheckStatsForSurplusAndDebt": "v2.surplusdebt",
-	"Keeper.LiquidateIndividualVault":    "v2.vault",
-	"Keeper.UpdateDutchAuction":          "v2.auction",
-	"Keeper.ExecuteRequests":             "liquidity.batch",
-	"Keeper.DeleteOutdatedRequests":      "liquidity.cleanup",
-	"Keeper.CreateLockedVault":           "v1.vault",
-	"Keeper.SurplusActivator":            "v1.surplus",
-	"Keeper.DebtActivator":               "v1.debt",
+	"liquidationsV2/keeper.Keeper.LiquidateIndividualBorrow":   "v2.borrow",
+	"liquidationsV2/keeper.Keeper.CheckStatsForSurplusAndDebt": "v2.surplusdebt",
+	"liquidationsV2/keeper.Keeper.LiquidateIndividualVault":    "v2.vault",
+	"auctionsV2/keeper.Keeper.UpdateDutchAuction":              "v2.auction",
+	"liquidity/keeper.Keeper.ExecuteRequests":                  "liquidity.batch",
+	"liquidity/keeper.Keeper.DeleteOutdatedRequests":           "liquidity.cleanup",
+	"liquidation/keeper.Keeper.CreateLockedVault":              "v1.vault", // (the V2 keeper has a CreateLockedVault too)
+	"auction/keeper.Keeper.SurplusActivator":                   "v1.surplus",
+	"auction/keeper.Keeper.DebtActivator":                      "v1.debt",
 }
 
+// outermost marked function on the stack (a unit's per-item function calls helpers that may carry
+// another unit's marker: the unit is the one that was entered first)
 func c15RootMarker() string {
 	pcs := make([]uintptr, 48)
 	n := runtime.Callers(3, pcs)
 	fr := runtime.CallersFrames(pcs[:n])
+	found := ""
 	for {
 		f, more := fr.Next()
 		for k, v := range c15UnwrappedMarkers {
-			if strings.HasSuffix(f.Function, k) && strings.Contains(f.Function, "comdex/x/") {
-				return v
+			if strings.HasSuffix(f.Function, "comdex/x/"+k) {
+				found = v
 			}
 		}
 		if !more {
 			break
 		}
 	}
-	return ""
+	return found
 }
 
 // which unit of Model/Hooks.v a wrap instance is (by the function that opened it)
 var c15UnitOfCaller = map[string]string{
 	"liquidationsV2/keeper.Keeper.LiquidateVaults":     "v2.vault",
+	"liquidationsV2/keeper.Keeper.LiquidateBorrows":    "v2.borrow", // wrapped per item since fix C09-F3 / C15-F1
+	"liquidationsV2/keeper.Keeper.LiquidateForSurplusAndDebt": "v2.surplusdebt", // wrapped per (app, asset) once fix C15-F3 is applied
 	"liquidation/keeper.Keeper.LiquidateVaults":        "v1.vault",
 	"liquidation/keeper.Keeper.LiquidateBorrows":       "v1.borrow",
 	"auction.BeginBlocker":                             "v1.surplus",
@@ -254,6 +265,7 @@ func c15HookByName(n string) c15Hook {
 //   p2e   p2 two hours later (V2 auctions past their end time: restart path)
 //   p1v1  p1 after one first-generation liquidation.BeginBlocker (V1 dutch auctions running), later
 //   p3    p1 after liquidity.EndBlocker at a batch height (requests to clean up)
+//   p2s   p2 with a collector lookup table and a surplus-auction mapping for (vault app, debt asset)
 type c15State struct {
 	name string
 	ctx  sdk.Context
@@ -283,6 +295,12 @@ func c15BuildStates(t *testing.T, a *chain.App, base sdk.Context) (map[string]sd
 	st["p2"] = c15Height(p2, 40, 660*time.Second)
 	p2e, _ := p2.CacheContext()
 	st["p2e"] = c15Height(p2e, 400, 7800*time.Second)
+	// p2 with the collector configured for the vault app (lookup table + surplus-auction mapping for
+	// the debt asset, thresholds below the opening fees the two vault creations paid in): the
+	// surplus / debt trigger of the V2 sweep (CheckStatsForSurplusAndDebt) has work to do
+	p2s, _ := p2.CacheContext()
+	c15CollectorSetup(t, a, p2s, e)
+	st["p2s"] = c15Height(p2s, 40, 660*time.Second)
 	pv, _ := ctx.CacheContext()
 	liquidation.BeginBlocker(c15Height(pv, 20, 60*time.Second), abci.RequestBeginBlock{}, a.LiquidationKeeper)
 	st["p1v1"] = c15Height(pv, 40, 120*time.Second)
@@ -351,6 +369,41 @@ func c15ApplyFault(t *testing.T, a *chain.App, ctx sdk.Context, e *c15Env, fault
 		if n > 0 {
 			a.VaultKeeper.SetLengthOfVault(ctx, n-1)
 		}
+	case "batch-huge", "batch-over-int":
+		// REACHABLE parameter fault.  New healthy vaults and a new borrow are created through the real
+		// message handlers until the swept lists are longer than the stored offsets (every chain whose
+		// list was swept completely has offset = length; the next creation makes offset < length),
+		// then the liquidation batch size is set through the real parameter setter (what a
+		// governance parameter change executes; validateLiquidationBatchSize accepts every v > 0):
+		//   batch-huge      2^63-1: int(offset + batch) overflows for every stored offset >= 1
+		//   batch-over-int  2^63 or 2^64-1: int(batch) is negative, the helper's batchSize < 0 branch
+		grown := c15GrowSweptLists(t, a, ctx, e, 1+r.intn(2))
+		b := uint64(1<<63 - 1)
+		if fault == "batch-over-int" {
+			b = []uint64{1 << 63, ^uint64(0)}[r.intn(2)]
+		}
+		// the handler a passed governance parameter-change proposal executes (it runs the module's
+		// validateLiquidationBatchSize); the keeper's own setter is used only if that is refused
+		gov := "gov:ok"
+		for _, sub := range []string{liqV2types.ModuleName, liqV1types.ModuleName} {
+			err := params.NewParamChangeProposalHandler(a.ParamsKeeper)(ctx, &paramproposal.ParameterChangeProposal{Title: "batch", Description: "batch",
+				Changes: []paramproposal.ParamChange{{Subspace: sub, Key: "LiquidationBatchSize", Value: fmt.Sprintf("\"%d\"", b)}}})
+			if err != nil {
+				gov = "gov:refused"
+			}
+		}
+		if gov != "gov:ok" {
+			a.NewliqKeeper.SetParams(ctx, liqV2types.Params{LiquidationBatchSize: b})
+			a.LiquidationKeeper.SetParams(ctx, liqV1types.Params{LiquidationBatchSize: b})
+		}
+		detail = fmt.Sprintf("batch=%d %s grown=%s", b, gov, grown)
+	case "english-off":
+		// REACHABLE configuration fault: the app's liquidation whitelisting has English auctions
+		// switched off (surplus / debt auctions are English auctions: CreateLockedVault refuses them)
+		if w, found := a.NewliqKeeper.GetLiquidationWhiteListing(ctx, e.appHarbor); found {
+			w.IsEnglishActivated = false
+			a.NewliqKeeper.SetLiquidationWhiteListing(ctx, w)
+		}
 	case "batch-zero-liquidity":
 		p, err := a.LiquidityKeeper.GetGenericParams(ctx, e.appSwap)
 		if err == nil {
@@ -361,8 +414,74 @@ func c15ApplyFault(t *testing.T, a *chain.App, ctx sdk.Context, e *c15Env, fault
 	return
 }
 
-var c15Faults = []string{"none", "inactive-prices", "zero-prices", "huge-prices", "drained-modules", "deleted-params", "counter-high", "counter-high-1",
-	"counter-low", "batch-zero-liquidity"}
+var c15Faults = []string{"none", "inactive-prices", "zero-prices", "huge-prices", "drained-modules", "counter-high", "counter-high-1",
+	"counter-low", "batch-zero-liquidity", "batch-huge", "batch-over-int", "english-off"}
+
+// collector configuration for (vault app, debt asset uasset3), through the functions the wasm
+// bindings call.  The net fees of that pair are the opening fees of the fixture's vault creations.
+func c15CollectorSetup(t *testing.T, a *chain.App, ctx sdk.Context, e *c15Env) {
+	a3, a4 := e.assets[2], e.assets[3]
+	net, found := a.CollectorKeeper.GetNetFeeCollectedData(ctx, e.appHarbor, a3)
+	if !found || !net.NetFeesCollected.IsPositive() {
+		t.Fatalf("c15CollectorSetup: no net fees for app %d asset %d", e.appHarbor, a3)
+	}
+	lot := net.NetFeesCollected.QuoRaw(4)
+	if err := a.CollectorKeeper.WasmSetCollectorLookupTable(ctx, &bindings.MsgSetCollectorLookupTable{AppID: e.appHarbor, CollectorAssetID: a3, SecondaryAssetID: a4,
+		SurplusThreshold: net.NetFeesCollected.QuoRaw(2), DebtThreshold: sdk.NewInt(0), LockerSavingRate: c15Dec("0.1"), LotSize: lot,
+		BidFactor: c15Dec("0.01"), DebtLotSize: sdk.NewInt(2000000)}); err != nil {
+		t.Fatalf("collector lookup: %v", err)
+	}
+	if err := a.CollectorKeeper.WasmSetAuctionMappingForApp(ctx, &bindings.MsgSetAuctionMappingForApp{AppID: e.appHarbor, AssetIDs: a3, IsSurplusAuctions: true,
+		IsDebtAuctions: false, IsDistributor: false, AssetOutOraclePrices: false, AssetOutPrices: 1000000}); err != nil {
+		t.Fatalf("auction mapping: %v", err)
+	}
+}
+
+// what the surplus / debt trigger unit of (vault app, debt asset) touches
+type c15SurplusObs struct {
+	coll, net sdk.Int
+	locked    uint64
+	auction   uint64
+	active    bool
+}
+
+func c15ObserveSurplus(a *chain.App, ctx sdk.Context, e *c15Env) c15SurplusObs {
+	o := c15SurplusObs{coll: a.BankKeeper.GetBalance(ctx, modAddr("collectorV1"), "uasset3").Amount, net: sdk.ZeroInt()}
+	if n, found := a.CollectorKeeper.GetNetFeeCollectedData(ctx, e.appHarbor, e.assets[2]); found {
+		o.net = n.NetFeesCollected
+	}
+	o.locked = a.NewliqKeeper.GetLockedVaultID(ctx)
+	o.auction = a.NewaucKeeper.GetAuctionID(ctx)
+	if m, found := a.CollectorKeeper.GetAuctionMappingForApp(ctx, e.appHarbor, e.assets[2]); found {
+		o.active = m.IsAuctionActive
+	}
+	return o
+}
+
+// c15GrowSweptLists creates, through the message handlers, `extra` more vaults than the largest
+// stored vault-sweep offset and one more borrow, so that 1 <= stored offset < length where a sweep
+// has run before.  The new positions are healthy at the current prices.
+func c15GrowSweptLists(t *testing.T, a *chain.App, ctx sdk.Context, e *c15Env, extra int) string {
+	off := uint64(0)
+	if oh, found := a.NewliqKeeper.GetLiquidationOffsetHolder(ctx, liqV2types.VaultLiquidationsOffsetPrefix, 0); found {
+		off = oh.CurrentOffset
+	}
+	if oh, found := a.LiquidationKeeper.GetLiquidationOffsetHolder(ctx, e.appHarbor, liqV1types.VaultLiquidationsOffsetPrefix); found && oh.CurrentOffset > off {
+		off = oh.CurrentOffset
+	}
+	made, class := 0, ""
+	for i := 0; a.VaultKeeper.GetLengthOfVault(ctx) < off+uint64(extra) && i < 8; i++ {
+		who := addrN(130 + i)
+		fund(t, a, ctx, who, sdk.NewCoins(sdk.NewCoin("uasset2", sdk.NewInt(100000000))))
+		class, _, _ = execMsg(a, ctx, &vaulttypes.MsgCreateRequest{From: who.String(), AppId: e.appHarbor, ExtendedPairVaultId: e.extPair,
+			AmountIn: sdk.NewInt(4000000), AmountOut: sdk.NewInt(1000000)})
+		if class == "ok" {
+			made++
+		}
+	}
+	bclass, _, _ := execMsg(a, ctx, lendtypes.NewMsgBorrow(e.user2.String(), 3, 1, false, sdk.NewCoin("ucasset1", sdk.NewInt(1000000000)), sdk.NewCoin("uasset2", sdk.NewInt(100000000))))
+	return fmt.Sprintf("vaults+%d(%s),borrow:%s", made, class, bclass)
+}
 
 func TestC15(t *testing.T) {
 	a, base := newApp(t)
@@ -379,7 +498,7 @@ func TestC15(t *testing.T) {
 	ci := 0
 
 	// ---- (i) environment cases: every hook on every prepared state under every fault ----
-	stateNames := []string{"p1", "p2", "p2e", "p1v1", "p1v1e", "p3"}
+	stateNames := []string{"p1", "p2", "p2e", "p1v1", "p1v1e", "p3", "p2s"}
 	for _, sn := range stateNames {
 		for _, fault := range c15Faults {
 			sub := newRng(r.next())
@@ -390,35 +509,44 @@ func TestC15(t *testing.T) {
 			ctx, _ := states[sn].CacheContext()
 			detail := c15ApplyFault(t, a, ctx, env, fault, sub)
 			tr.p("case %d env %s %s %s", ci, sn, fault, detail)
+			if strings.HasPrefix(fault, "counter-") {
+				// the vault counter was set directly through the keeper: no wired code path produces
+				// counter != number of open vaults, the state is UNREACHABLE.  The case only validates
+				// the model of the slice expression (model predicts panic <=> implementation panicked)
+				tr.p("fabricated counter")
+			}
 			for _, h := range c15Hooks {
 				v1 := h.name == "liquidation.BeginBlocker" || h.name == "auction.BeginBlocker"
 				if v1 && !strings.HasPrefix(sn, "p1v1") {
 					continue // the two generations liquidate the same vaults: V1 hooks run on the V1 states only
 				}
 				hctx, write := ctx.CacheContext()
-				if h.name == "liquidationsV2.BeginBlocker" || h.name == "liquidation.BeginBlocker" {
-					// what the sweep's slice expression will see (inputs of Model/Sweep.v)
-					vs := a.VaultKeeper.GetVaults(hctx)
-					off, batch, present := uint64(0), uint64(0), 1
-					if h.name == "liquidationsV2.BeginBlocker" {
-						if oh, found := a.NewliqKeeper.GetLiquidationOffsetHolder(hctx, liqV2types.VaultLiquidationsOffsetPrefix, 0); found {
-							off = oh.CurrentOffset
-						}
-						if p, _ := safely(func() { batch = a.NewliqKeeper.GetParams(hctx).LiquidationBatchSize }); p {
-							present = 0
-						}
-					} else {
-						if oh, found := a.LiquidationKeeper.GetLiquidationOffsetHolder(hctx, env.appHarbor, liqV1types.VaultLiquidationsOffsetPrefix); found {
-							off = oh.CurrentOffset
-						}
-						if p, _ := safely(func() { batch = a.LiquidationKeeper.GetParams(hctx).LiquidationBatchSize }); p {
-							present = 0
-						}
-					}
-					tr.p("sweep %s %d %d %d %d %d", h.name, cap(vs), a.VaultKeeper.GetLengthOfVault(hctx), off, batch, present)
+				c15SweepLines(tr, a, hctx, env, h.name)
+				obs := h.name == "liquidationsV2.BeginBlocker" && strings.HasSuffix(sn, "s")
+				var o0 c15SurplusObs
+				if obs {
+					o0 = c15ObserveSurplus(a, hctx, env)
+					hctx = hctx.WithEventManager(sdk.NewEventManager())
 				}
 				d0 := storeDigest(a, hctx)
 				panicked, msg, at := c15Safely(func() { h.run(a, hctx) })
+				if obs && !panicked {
+					// the unit's own projection: did the hook report the unit's failure (its error event) and
+					// which of the unit's writes / coin movements are visible after the hook
+					o1 := c15ObserveSurplus(a, hctx, env)
+					failed := 0
+					for _, ev := range hctx.EventManager().Events() {
+						if ev.Type == liqV2types.EventTypeLiquidateErr {
+							failed = 1
+						}
+					}
+					act := 0
+					if o1.active != o0.active {
+						act = 1
+					}
+					tr.p("unitobs v2.surplusdebt %d %s %s %d %d %d", failed, o1.coll.Sub(o0.coll), o1.net.Sub(o0.net), int64(o1.locked)-int64(o0.locked),
+						int64(o1.auction)-int64(o0.auction), act)
+				}
 				class := "ok"
 				if panicked {
 					class = "panic"
@@ -446,7 +574,7 @@ func TestC15(t *testing.T) {
 
 	// ---- (ii) crash-point enumeration ----
 	targets := []struct{ hook, state string }{
-		{"liquidationsV2.BeginBlocker", "p1"}, {"auctionsV2.BeginBlocker", "p2"}, {"auctionsV2.BeginBlocker", "p2e"},
+		{"liquidationsV2.BeginBlocker", "p1"}, {"liquidationsV2.BeginBlocker", "p2s"}, {"auctionsV2.BeginBlocker", "p2"}, {"auctionsV2.BeginBlocker", "p2e"},
 		{"liquidity.EndBlocker", "p1"}, {"liquidity.BeginBlocker", "p3"}, {"rewards.BeginBlocker", "p1"}, {"esm.BeginBlocker", "p1"},
 		{"lend.BeginBlocker", "p1"}, {"liquidation.BeginBlocker", "p1"}, {"auction.BeginBlocker", "p1v1"}, {"auction.BeginBlocker", "p1v1e"},
 	}
@@ -586,6 +714,46 @@ func TestC15(t *testing.T) {
 	}
 }
 
+// what the slice expressions of the sweeps will see (inputs of Model/Sweep.v), one line per sweep of
+// the hook in the order the hook runs them: capacity of the sliced list, the length the code passes
+// as sliceLen, the stored offset, the stored batch size (uint64, before the code's int() conversion)
+func c15SweepLines(tr *tracer, a *chain.App, hctx sdk.Context, env *c15Env, hook string) {
+	switch hook {
+	case "liquidationsV2.BeginBlocker":
+		batch := a.NewliqKeeper.GetParams(hctx).LiquidationBatchSize
+		vs := a.VaultKeeper.GetVaults(hctx)
+		off := uint64(0)
+		if oh, found := a.NewliqKeeper.GetLiquidationOffsetHolder(hctx, liqV2types.VaultLiquidationsOffsetPrefix, 0); found {
+			off = oh.CurrentOffset
+		}
+		tr.p("sweep %s vaults %d %d %d %d", hook, cap(vs), a.VaultKeeper.GetLengthOfVault(hctx), off, batch)
+		if bs, found := a.LendKeeper.GetBorrows(hctx); found {
+			off = 0
+			if oh, found := a.NewliqKeeper.GetLiquidationOffsetHolder(hctx, liqV2types.VaultLiquidationsOffsetPrefix, 1); found {
+				off = oh.CurrentOffset
+			}
+			tr.p("sweep %s borrows %d %d %d %d", hook, cap(bs), len(bs), off, batch)
+		}
+	case "liquidation.BeginBlocker":
+		batch := a.LiquidationKeeper.GetParams(hctx).LiquidationBatchSize
+		vs := a.VaultKeeper.GetVaults(hctx)
+		for _, app := range a.LiquidationKeeper.GetAppIdsForLiquidation(hctx) {
+			off := uint64(0)
+			if oh, found := a.LiquidationKeeper.GetLiquidationOffsetHolder(hctx, app, liqV1types.VaultLiquidationsOffsetPrefix); found {
+				off = oh.CurrentOffset
+			}
+			tr.p("sweep %s vaults %d %d %d %d", hook, cap(vs), a.VaultKeeper.GetLengthOfVault(hctx), off, batch)
+		}
+		if bs, found := a.LendKeeper.GetBorrows(hctx); found {
+			off := uint64(0)
+			if oh, found := a.LiquidationKeeper.GetLiquidationOffsetHolder(hctx, lendtypes.AppID, liqV1types.VaultLiquidationsOffsetPrefix); found {
+				off = oh.CurrentOffset
+			}
+			tr.p("sweep %s borrows %d %d %d %d", hook, cap(bs), len(bs), off, batch)
+		}
+	}
+}
+
 // c15Safely runs f; on a panic it also reports which unit's per-item function was on the stack
 func c15Safely(f func()) (panicked bool, msg, at string) {
 	at = "-"
@@ -594,9 +762,10 @@ func c15Safely(f func()) (panicked bool, msg, at string) {
 			panicked = true
 			msg = fmt.Sprint(r)
 			st := string(debug.Stack())
+			last := -1
 			for k, v := range c15UnwrappedMarkers {
-				if strings.Contains(st, k+"(") {
-					at = v
+				if i := strings.LastIndex(st, "comdex/x/"+k+"("); i > last {
+					last, at = i, v
 				}
 			}
 		}
